@@ -4,7 +4,8 @@
 cd /verif
 ids=${@:-$(ls seeded)}
 for id in $ids; do
-  out=$(tools/mutcheck.sh seeded/$id/patch.diff $id 2>&1)
-  n=$(echo "$out" | grep -c "^VIOLATION property=$id")
+  prop=${id:0:3}   # seeded/C01b is a second seed for property C01
+  out=$(tools/mutcheck.sh seeded/$id/patch.diff $prop 2>&1)
+  n=$(echo "$out" | grep -c "^VIOLATION property=$prop")
   if [ "$n" -gt 0 ]; then echo "CAUGHT $id ($n violations): $(echo "$out" | grep "^VIOLATION" | head -1 | sed 's/.*obligation=\([^ ]*\).*/\1/')"; else echo "MISS   $id: $(echo "$out" | tail -1)"; fi
 done
